@@ -182,7 +182,11 @@ class UdpInverterProtocol(InverterProtocol, asyncio.DatagramProtocol):
     def error_received(self, exc: Exception) -> None:
         """On error received"""
         logger.debug("Received error: %s", exc)
-        self.response_future.set_exception(exc)
+        try:
+            if self.response_future:
+                self.response_future.set_exception(exc)
+        except asyncio.InvalidStateError:
+            logger.debug("Response already handled.")
         self._close_transport()
 
     async def send_request(self, command: ProtocolCommand) -> Future:
@@ -333,7 +337,11 @@ class TcpInverterProtocol(InverterProtocol, asyncio.Protocol):
     def error_received(self, exc: Exception) -> None:
         """On error received"""
         logger.debug("Received error: %s", exc)
-        self.response_future.set_exception(exc)
+        try:
+            if self.response_future:
+                self.response_future.set_exception(exc)
+        except asyncio.InvalidStateError:
+            logger.debug("Response already handled.")
         self._close_transport()
 
     async def send_request(self, command: ProtocolCommand) -> Future:
